@@ -36,7 +36,7 @@ func init() {
 			"Evidence: pairs of operations on the same *Expr whose [call, return] intervals (logical timestamps from one atomic counter) overlapped, and distinct interleaving signatures (order of call events by goroutine). Non-trivial = a round with at least one overlapping pair; distinct by interleaving signature. Zero overlapping pairs => inconclusive.",
 		Assume:        []string{"the Go race detector reports a race only when both accesses happen in the run (sampled schedules, not enumerated)", "harness state: per-goroutine navigators and records, shared documents are immutable"},
 		MinNontrivial: tierN(1500, 20000),
-		Required:      []string{"overlapping_pairs_same_expr", "op:select", "op:select-abandoned", "op:evaluate", "op:compile", "op:regexp"},
+		Required:      []string{"overlapping_pairs_same_expr", "op:select", "op:select-abandoned", "op:evaluate", "op:compile", "op:regexp", "op:fresh-pattern", "coldstart:first-engine-use-of-the-process"},
 		Families: []Family{
 			// (first: the first case a worker process executes must be the first use of the engine in that process)
 			{Name: "coldstart", N: func(string) int { return 64 }, Run: c05ColdStart},
